@@ -146,6 +146,8 @@ pub struct CfgInner {
     /// queries after the first `n0` are started by the explorer at a later instant
     staggered: bool,
     n0: usize,
+    /// number of LATE polls (1 s or 3 s beyond poll_at) the explorer may insert per history
+    late_budget: u8,
     /// per query, on the unimpaired link: send instants and failure instant relative to its start
     /// when the query runs ALONE and unanswered on this tree, polled at poll_at
     alone: Vec<(Vec<i64>, i64)>,
@@ -206,13 +208,15 @@ fn make_cfg_full(label: &str, n_servers: usize, queries: &[(&str, u16)], alpha: 
         long.push(suffix.clone());
         names.push(NameSet { q, o, t: mk("t"), u: mk("u"), v: mk("v"), long });
     }
+    let late_budget: u8 = if label.contains("late-poll") { if label.contains("x2") { 2 } else { 1 } } else { 0 };
     let mut inner = CfgInner {
         label: label.to_string(),
         net,
         alpha,
         staggered,
+        late_budget,
         n0: if staggered { queries.len() - 1 } else { queries.len() },
-        alone: if net == Net::Ip && (queries.len() > 1 || staggered) { queries.iter().map(|q| run_alone(n_servers, *q)).collect() } else { vec![] },
+        alone: if net == Net::Ip && (queries.len() > 1 || staggered || late_budget > 0) { queries.iter().map(|q| run_alone(n_servers, *q)).collect() } else { vec![] },
         servers,
         queries: queries.iter().map(|(n, t)| (n.to_string(), *t)).collect(),
         names,
@@ -230,10 +234,11 @@ fn make_cfg_full(label: &str, n_servers: usize, queries: &[(&str, u16)], alpha: 
         }
     }
     inner.dbg = Arc::from(format!(
-        "DnsCfg {{ label: {:?}, net: {:?}, staggered: {}, servers: {}, queries: {:?}, alphabet: {:?}, thorough: {}, limits(srv,res,name): ({},{},{}) }}",
+        "DnsCfg {{ label: {:?}, net: {:?}, staggered: {}, late_polls: {}, servers: {}, queries: {:?}, alphabet: {:?}, thorough: {}, limits(srv,res,name): ({},{},{}) }}",
         inner.label,
         inner.net,
         inner.staggered,
+        inner.late_budget,
         inner.servers.len(),
         inner.queries,
         inner.alphabet.iter().map(|a| a.len()).collect::<Vec<_>>(),
@@ -462,6 +467,11 @@ fn configs(tier: Tier) -> Vec<(DnsCfg, usize)> {
         if ns > 1 {
             v.push((make_cfg_full("2q-staggered-A+A-1srv/mini", 1, &[a, ("de.c", T_A)], Alpha::Mini, Net::Ip, true), 8));
         }
+        // one poll per history comes 1 s or 3 s AFTER poll_at (a late poll may delay, never shorten,
+        // a server's window); the mDNS walk (IPv6 group, then IPv4 group) is a two-server walk in
+        // the default build too
+        v.push((make_cfg_full("1q-late-poll-A/mini", ns, &[a], Alpha::Mini, Net::Ip, false), 8));
+        v.push((make_cfg_full("1q-mdns-late-poll-A/mini", ns, &[("ab.local", T_A)], Alpha::Mini, Net::Ip, false), 8));
         // the interface sits idle (no poll) for 0 / 0.5 / 5 / 10 / 11 / 60 s before start_query
         v.push((make_cfg_full("1q-idle-gap-A/mini", ns, &[a], Alpha::Mini, Net::Ip, true), 8));
         if ns > 1 {
@@ -471,6 +481,10 @@ fn configs(tier: Tier) -> Vec<(DnsCfg, usize)> {
         v.push((make_cfg_full("2q-staggered-A+A/mini", ns, &[a, ("de.c", T_A)], Alpha::Mini, Net::Ip, true), 48));
         v.push((make_cfg_full("2q-staggered-A+A/reduced", ns, &[a, ("de.c", T_A)], Alpha::Reduced, Net::Ip, true), 5));
         v.push((make_cfg_full("1q-idle-gap-A/mini", ns, &[a], Alpha::Mini, Net::Ip, true), 48));
+        v.push((make_cfg_full("1q-late-poll-x2-A/mini", ns, &[a], Alpha::Mini, Net::Ip, false), 48));
+        v.push((make_cfg_full("1q-mdns-late-poll-x2-A/mini", ns, &[("ab.local", T_A)], Alpha::Mini, Net::Ip, false), 48));
+        v.push((make_cfg_full("2q-late-poll-A+A/mini", ns, &[a, ("de.c", T_A)], Alpha::Mini, Net::Ip, false), 48));
+        v.push((make_cfg_full("2q-staggered-late-poll-A+A/mini", ns, &[a, ("de.c", T_A)], Alpha::Mini, Net::Ip, true), 48));
         v.push((make_cfg_full("1q-idle-gap-A/reduced", ns, &[a], Alpha::Reduced, Net::Ip, true), 5));
         if ns > 1 {
             v.push((make_cfg_full("1q-idle-gap-A-1srv/mini", 1, &[a], Alpha::Mini, Net::Ip, true), 48));
@@ -514,6 +528,8 @@ fn configs(tier: Tier) -> Vec<(DnsCfg, usize)> {
 pub enum Ev {
     /// advance the clock to Interface::poll_at and poll
     Tick,
+    /// a LATE poll: the clock moves this many ms beyond Interface::poll_at before the poll
+    TickLate(u32),
     /// no more responses: tick until every query has a result (terminal)
     RunOut,
     /// deliver a response built from query n's data as seen on the wire
@@ -556,7 +572,12 @@ struct QModel {
     last_tx: i64,
     last_gap: i64,
     /// per server (in order of first use): send times relative to the first transmission to it
-    sched: Vec<Vec<i64>>,
+    sched: Vec<Vec<(i64, i64)>>,
+    /// total lateness (us) of late polls since the query's start / since the first datagram to the
+    /// current server: a poll d after poll_at may delay everything after it by up to d, never
+    /// make anything happen earlier
+    late_q: i64,
+    late_srv: i64,
     /// evidence only (not part of the fingerprint)
     txlog: Vec<(i64, String)>,
 }
@@ -591,6 +612,9 @@ pub struct DnsH {
     was_blocked: bool,
     /// evidence only
     n_arp: u64,
+    /// late polls still allowed in this history / lateness of the poll being executed
+    late_left: u8,
+    poll_late: i64,
 }
 
 // transition classes (evidence)
@@ -853,6 +877,7 @@ impl DnsH {
             },
         };
         let cfg = self.cfg.clone();
+        let poll_late = self.poll_late;
         let mdns = self.ci().mdns;
         let expected_dport = if mdns { 5353 } else { 53 };
         if dport != expected_dport {
@@ -870,12 +895,15 @@ impl DnsH {
         if m.cur_dst == dst {
             let gap = ts - m.last_tx;
             if gap < m.last_gap {
-                viol = Some(("timing/backoff-gap-shrinks", format!("query {}: gap {} us after a gap of {} us to the same server", k, gap, m.last_gap)));
+                viol = Some(("timing/backoff-gap-shrinks", format!("query {}: gap {} us after a (scheduled) gap of at least {} us to the same server", k, gap, m.last_gap)));
             }
-            m.last_gap = gap;
+            // lower bound of the delay smoltcp scheduled: the observed gap minus the lateness of the
+            // poll that sent this datagram
+            m.last_gap = (gap - poll_late).max(0);
             let rel = ts - m.cur_dst_first;
+            let slack = m.late_srv;
             if let Some(cur) = m.sched.last_mut() {
-                cur.push(rel);
+                cur.push((rel, slack));
             }
         } else {
             if !m.cur_dst.is_empty() && ts - m.cur_dst_first < PER_SERVER_S * SEC {
@@ -896,7 +924,8 @@ impl DnsH {
             m.cur_dst = dst.clone();
             m.cur_dst_first = ts;
             m.last_gap = 0;
-            m.sched.push(vec![0]);
+            m.late_srv = 0;
+            m.sched.push(vec![(0, 0)]);
         }
         // "retransmitting with back-off ... moving to the next server": the schedule towards server
         // k repeats the schedule towards the first server (same relative send times; on the
@@ -905,9 +934,11 @@ impl DnsH {
         if viol.is_none() && m.sched.len() >= 2 {
             let s = m.sched.len() - 1;
             let i = m.sched[s].len() - 1;
-            if let Some(&want) = m.sched[0].get(i) {
-                let got = m.sched[s][i];
-                if got != want {
+            if let Some(&(want, wslack)) = m.sched[0].get(i) {
+                let (got, gslack) = m.sched[s][i];
+                // each side is known up to the lateness of the late polls before it: the intervals
+                // [t - slack, t] must meet (no late poll: plain equality)
+                if got - gslack > want || want - wslack > got {
                     viol = Some((
                         "timing/server-schedule-differs-from-first-server",
                         format!(
@@ -929,7 +960,9 @@ impl DnsH {
                 let i = m.txlog.len() - 1;
                 let rel = ts - m.started;
                 if let Some(&r) = ref_tx.get(i) {
-                    if rel > r {
+                    // (index-wise comparison is only meaningful while no poll was late: a late poll can
+                    // push a datagram past the end of a server's window, which shifts the numbering)
+                    if m.late_q == 0 && rel > r {
                         viol = Some((
                             "timing/query-schedule-later-than-when-run-alone",
                             format!(
@@ -949,7 +982,9 @@ impl DnsH {
     /// A server other than the first got fewer datagrams than the first one before the query
     /// left it (fail-over or failure by time-out).
     fn schedule_short(m: &QModel, k: usize, when: &str) -> Option<(&'static str, String)> {
-        if m.sched.len() >= 2 {
+        // (a late poll may delay a datagram beyond the end of the server's window: only judged when
+        // no poll was late during this server's window)
+        if m.sched.len() >= 2 && m.late_srv == 0 {
             let s = m.sched.len() - 1;
             if m.sched[s].len() < m.sched[0].len() {
                 return Some((
@@ -1105,7 +1140,7 @@ impl DnsH {
                         }
                         if let Some((ref_tx, ref_fail)) = self.cfg.0.alone.get(k).cloned() {
                             let rel = self.now - self.qs[k].started;
-                            if rel > ref_fail {
+                            if rel > ref_fail + self.qs[k].late_q {
                                 let d = format!(
                                     "query {} (started at {} us) is failed by time-out {} us after its start; run alone it fails after {} us (alone it sends at {:?}; this run, absolute: {:?})",
                                     k, self.qs[k].started, rel, ref_fail, ref_tx, self.qs[k].txlog
@@ -1210,7 +1245,7 @@ impl DnsH {
             self.fail(out, "termination/poll_at-none-while-pending", d);
         }
         for k in 0..self.qs.len() {
-            if self.qs[k].status == Status::Pending && self.now > self.qs[k].deadline {
+            if self.qs[k].status == Status::Pending && self.now > self.qs[k].deadline + self.qs[k].late_q {
                 let d = format!(
                     "query {} still pending at t={} us, bound {} us (started {} us; polled exactly at poll_at); transmissions {:?}",
                     k, self.now, self.qs[k].deadline, self.qs[k].started, self.qs[k].txlog
@@ -1225,7 +1260,13 @@ impl DnsH {
     fn tick(&mut self, out: &mut Vec<Viol>) -> bool {
         let Some(p) = self.next_poll else { return false };
         let before = (self.now, self.statuses());
-        if p > self.now {
+        if self.poll_late > 0 {
+            self.now = p.max(self.now) + self.poll_late;
+            for q in self.qs.iter_mut().filter(|q| q.status == Status::Pending) {
+                q.late_q += self.poll_late;
+                q.late_srv += self.poll_late;
+            }
+        } else if p > self.now {
             self.now = p;
         } else if self.blocked {
             // The device refuses frames and smoltcp asks to be polled "now": a real caller polls
@@ -1365,6 +1406,8 @@ impl Harness for DnsH {
                 last_tx: 0,
                 last_gap: 0,
                 sched: vec![],
+                late_q: 0,
+                late_srv: 0,
                 txlog: vec![],
             });
         }
@@ -1387,6 +1430,8 @@ impl Harness for DnsH {
             blocked: ci.net == Net::IpBackPressure,
             was_blocked: ci.net == Net::IpBackPressure,
             n_arp: 0,
+            late_left: ci.late_budget,
+            poll_late: 0,
         };
         let mut out = vec![];
         me.settle(&mut out, "initial poll");
@@ -1416,6 +1461,10 @@ impl Harness for DnsH {
         if self.any_pending() {
             if self.next_poll.is_some() {
                 v.push((Ev::Tick, 0));
+                if self.late_left > 0 {
+                    v.push((Ev::TickLate(1000), 1));
+                    v.push((Ev::TickLate(3000), 1));
+                }
             }
             v.push((Ev::RunOut, 1));
         }
@@ -1468,6 +1517,13 @@ impl Harness for DnsH {
         let class = match ev {
             Ev::Tick => {
                 self.tick(out);
+                C_TICK
+            }
+            Ev::TickLate(ms) => {
+                self.late_left = self.late_left.saturating_sub(1);
+                self.poll_late = *ms as i64 * 1000;
+                self.tick(out);
+                self.poll_late = 0;
                 C_TICK
             }
             Ev::RunOut => {
@@ -1583,7 +1639,7 @@ impl Harness for DnsH {
         }
         {
             use std::fmt::Write;
-            let _ = write!(model, "arp={:?}/{:?} blocked={}/{}", self.arp_asked, self.arp_answered, self.blocked, self.was_blocked);
+            let _ = write!(model, "arp={:?}/{:?} blocked={}/{} late_left={} late={:?}", self.arp_asked, self.arp_answered, self.blocked, self.was_blocked, self.late_left, self.qs.iter().map(|q| (q.late_q, q.late_srv)).collect::<Vec<_>>());
         }
         let fp = fp128(&(socks.as_str(), dig.as_str(), self.now, self.next_poll, model.as_str(), self.dead));
         globals().outcomes.put(fp, self.outcome_label(&socks));
@@ -1602,6 +1658,7 @@ impl Harness for DnsH {
 fn describe_event(h: &DnsH, ev: &Ev) -> String {
     match ev {
         Ev::Tick => format!("Tick -> poll at {:?} us", h.next_poll),
+        Ev::TickLate(ms) => format!("TickLate -> poll {} ms AFTER poll_at = {:?} us", ms, h.next_poll),
         Ev::RunOut => "RunOut (tick until all queries are done)".into(),
         Ev::ArpReply(ip) => format!("ArpReply {} is-at {}", ipstr(ip), hex(&mac_of(*ip))),
         Ev::Unblock => "Unblock (device accepts frames again)".into(),
